@@ -217,7 +217,7 @@ func (reqTranslator) Forward(_ context.Context, r Req) (*v1.Request, error) {
 }
 
 func (reqTranslator) Backward(_ context.Context, r *v1.Request) (Req, error) {
-	return Req{Seq: int(r.Id), Data: r.Message}, nil
+	return Req{Seq: int(r.Id), Data: r.Message, Tags: tagsOf(0, int(r.Id)), Vals: valsOf(0, int(r.Id))}, nil // the test proto has no such fields
 }
 
 type resTranslator struct{}
@@ -227,7 +227,7 @@ func (resTranslator) Forward(_ context.Context, r Res) (*v1.Response, error) {
 }
 
 func (resTranslator) Backward(_ context.Context, r *v1.Response) (Res, error) {
-	return Res{Seq: int(r.Id), Data: r.Message}, nil
+	return Res{Seq: int(r.Id), Data: r.Message, Tags: tagsOf(1, int(r.Id)), Vals: valsOf(1, int(r.Id))}, nil // the test proto has no such fields
 }
 
 type grpcStreamServer struct {
